@@ -42,7 +42,7 @@ def entry(d, k):
 
 
 class SaveDependencies(Contract):
-    props = ("C09",)
+    props = ("C09", "C06")
     target = "ariadne_codegen.client_generators.input_types:InputTypesGenerator._save_dependencies"
     mutates = ("self",)
     use_at_calls = False
@@ -79,7 +79,7 @@ z3.RecAddDefinition(flat_enums, [_l, _d], z3.If(V.is_VNil(_l), V.VNil, V.vl_conc
 
 
 class GetUsedEnums(Contract):
-    props = ("C09",)
+    props = ("C09", "C06")
     target = "ariadne_codegen.client_generators.input_types:InputTypesGenerator.get_used_enums"
     use_at_calls = False
     frame_args = False
